@@ -242,6 +242,33 @@ func TestC02(t *testing.T) {
 			}
 			c.Ev.MarkExhaustive("equality laws on every unordered pair of operand producers")
 		})
+		// reflexivity on every function value: each of the 17 built-ins and user functions, compared with
+		// itself directly and through every way of holding a value (model-free)
+		c.Sub("function-value-reflexivity", func(s *Sub) {
+			if c.Shard != 0 {
+				return
+			}
+			p := bn.KwPrint + " "
+			vals := append(append([]string{}, bn.Builtins...), "f", "same", "mk()", "mk")
+			for _, b := range vals {
+				src := c02Prelude + bn.KwFun + " same(q) { " + bn.KwReturn + " q; }\n" + bn.KwFun + " mk() { " + bn.KwFun + " inner() { } " + bn.KwReturn + " inner; }\n" +
+					bn.KwVar + " h = " + b + ";\n" + bn.KwVar + " h2 = h;\n" +
+					p + "h == h;\n" + p + "h != h;\n" + p + "h == h2;\n" + p + "h2 == h;\n" + p + "[h][0] == h;\n" + p + "({m: h}).m == h;\n" + p + "same(h) == h;\n" + p + "h == same(h);\n" + p + "!(h != h2);\n"
+				if !strings.Contains(b, "(") {
+					src += p + b + " == " + b + ";\n" + p + b + " != " + b + ";\n" + p + "h == " + b + ";\n"
+				}
+				r := c.RunB(src, "")
+				c.Ev.EnumCase("function-value-reflexivity", true, func() string { return src }, "function-value")
+				want := "true\nfalse\ntrue\ntrue\ntrue\ntrue\ntrue\ntrue\ntrue\n"
+				if !strings.Contains(b, "(") {
+					want += "true\nfalse\ntrue\n"
+				}
+				if r.Class() != "clean" || r.Out != want {
+					s.Violation(Replay{Check: "reflexivity", Sig: "function-equality", Source: src, Note: "== must be reflexive on the function value " + b + " however it is held", Expected: want, Observed: r.Describe()})
+				}
+			}
+			c.Ev.MarkExhaustive("17 built-ins and 4 user function values x 12 self-comparisons")
+		})
 		n := 2500
 		if c.Thorough {
 			n = 25000
